@@ -4,6 +4,7 @@ import WuffsVerif.Model.Render
 import WuffsVerif.Model.RenderTokens
 /-! Line driver for C12.  Ops:
   format <tabs 0|1> <spaces n> <hex>   -> ok <hex>      (lib/dumbindent FormatBytes(nil, src, opts))
+  closed <tabs 0|1> <spaces n> <hex>   -> 1 | 0         (ghost: Indent.lexClosed, the hypothesis of indent_idempotent)
   num <hex>                            -> ok <hex>      (lang/render appendNum(nil, s))
   fmt <hex>                            -> ok <hex> | reject   (token.Tokenize + render.Render, no parse gate)
 -/
@@ -19,6 +20,12 @@ def c12Step (l : List String) : String :=
       match Indent.formatFuel (src.length + 1) o src with
       | some out => "ok " ++ toHex out
       | none => "err fuel"
+    | _, _ => "bad-op"
+  | ["closed", tabs, spaces, hx] =>
+    match spaces.toInt?, fromHex hx with
+    | some n, some src =>
+      if tabs != "0" && tabs != "1" then "bad-op" else
+      if Indent.lexClosed ⟨tabs == "1", n⟩ src then "1" else "0"
     | _, _ => "bad-op"
   | ["fmt", hx] =>
     match fromHex hx with
